@@ -272,6 +272,10 @@ READONLY_ARGS = {'memcpy': (1,), 'memmove': (1,), 'memcmp': (0, 1), 'strlen': (0
                  'strcmp': (0, 1), 'strncmp': (0, 1), 'memchr': (0,)}
 
 
+# configuration fields that are symbols of the analysis: (record, field) -> term name
+CANON_FIELDS = {('qb_log_target', 'max_line_length'): 'max_line_length'}
+
+
 class Analysis:
     """one function, one set of tracked buffers"""
 
@@ -318,6 +322,10 @@ class Analysis:
         if c is not None:
             return Lin(c)
         k = e.get('k')
+        if k == 'mem' and CANON_FIELDS:
+            lf = last_field(e)
+            if lf in CANON_FIELDS:
+                return Lin.term(CANON_FIELDS[lf])     # a configuration field: one symbol whatever the local pointing at it is called
         if k in ('var', 'mem'):
             return Lin.term(estr(e))
         if k == 'bin':
